@@ -363,6 +363,12 @@ def run(ctx):
     ctx.holds('R05o', repo.mod('pylatexenc.latexnodes.parsers._verbatim'), None,
               '%d regular expression(s) in the verbatim readers' % n_vr, construct='verbatim regex scan', trivial=True)
 
+    # ---- R05p: a comment ends at the first newline after its start marker
+    ctx.rule('R05p', 'impl_read_comment: the search for the newline that ends a comment starts exactly where the comment text '
+                     'starts (the slice start of the token text): an empty comment `%` + newline ends at that newline and does '
+                     'not swallow the next line (where an unmatched brace would then go unreported)', 1)
+    comment_end_search(ctx, 'R05p', repo)
+
     return 'other', (
         'Exception-escape analysis (least fixpoint over the resolved call graph, strict '
         'configuration) of LatexWalker.parse_content over every parser class: each escaping '
@@ -615,3 +621,34 @@ def error_text_indexing(ctx, rule, repo):
                        'parsing too' % (q, short(x, 40)), construct='%s: %s' % (q, short(x, 40)))
     ctx.holds(rule, em, None, '%d index expression(s) on the source string in the error classes' % n,
               construct='error text indexing scan', trivial=True)
+
+
+def comment_end_search(ctx, rule, repo):
+    from .. import affine
+    trm = repo.mod('pylatexenc.latexnodes._tokenreader')
+    f = trm.functions.get('LatexTokenReader.impl_read_comment')
+    if f is None:
+        raise AnalysisError('anchor vanished: LatexTokenReader.impl_read_comment')
+    env = affine.single_assign_env(f)
+    mk = [c for c in iter_own(f) if isinstance(c, ast.Call) and call_name(c) == 'make_token' and kwarg(c, 'arg') is not None]
+    finds = [c for c in iter_own(f) if isinstance(c, ast.Call) and call_name(c) in ('find', 'index') and len(c.args) >= 2
+             and isinstance(c.args[0], ast.Constant) and c.args[0].value == '\n' and unparse(call_recv(c)) == 's']
+    arg = kwarg(mk[0], 'arg') if mk else None
+    if isinstance(arg, ast.Name) and arg.id in env:
+        arg = env[arg.id]
+    if not (mk and finds and isinstance(arg, ast.Subscript) and isinstance(arg.slice, ast.Slice) and arg.slice.lower is not None):
+        ctx.unknown(rule, trm, f, 'comment text slice or newline search not found', construct='impl_read_comment: end search')
+        return
+    for fc in finds:
+        try:
+            d = affine.diff(fc.args[1], arg.slice.lower, env)
+        except affine.NotAffine:
+            ctx.unknown(rule, trm, fc, 'search start not affine: %s' % short(fc.args[1], 40),
+                        construct='impl_read_comment: end search')
+            continue
+        ctx.decide(rule, d == (0, {}), trm, fc, 'the newline is searched from the start of the comment text',
+                   'the newline that ends the comment is searched from %s, the comment text starts at %s (difference %s): a '
+                   'newline directly after the comment marker is not seen, the comment runs on to the end of the NEXT line, and '
+                   'whatever stands there (an unmatched `{`, `$`, \\begin) is neither parsed nor reported'
+                   % (short(fc.args[1], 40), short(arg.slice.lower, 40), affine.show(d)),
+                   construct='impl_read_comment: end search')
